@@ -502,6 +502,8 @@ def match_known(f, prop, known):
             continue
         if k['function'] != f['function']:
             continue
+        if k.get('units') and not any(f['unit'] == u or f['unit'].startswith(u + '_') for u in k['units']):
+            continue
         if k.get('label') and k['label'] != f['label']:
             continue
         if k.get('kind') and k['kind'] != f['kind']:
